@@ -13,7 +13,7 @@
      - role / term bookkeeping: a candidate or leader has term >= 2; within a term a follower never becomes candidate or
        leader again and a leader never becomes candidate. *)
 From Coq Require Import List NArith ZArith Bool Lia ZifyN ZifyNat ZifyBool.
-From BLB Require Import Raft.Core Raft.NodeProofs Raft.LogMatchLists.
+From BLB Require Import Raft.Core Raft.NodeProofs Raft.LogMatchLists Raft.CommitCount.
 Import ListNotations.
 Open Scope N_scope.
 
@@ -87,7 +87,8 @@ Definition boot_entry (ms : list nid) (ep : N) : entry :=
 Definition base (s : node) : Prop :=
   p_snap (n_p s) = None /\ wf_from 1 (p_log (n_p s)) /\
   ((p_log (n_p s) = [] /\ n_conf s = None) \/ 1 <= p_term (n_p s)) /\
-  (n_role s <> Follower -> 2 <= p_term (n_p s)).
+  (n_role s <> Follower -> 2 <= p_term (n_p s)) /\
+  (n_role s = Leader -> pasc (l_peers s) /\ forall p, In p (l_peers s) -> pr_id p <> n_id s).
 
 Lemma new_core_nosnap id cfg p :
   p_snap p = None -> new_core id cfg p = Ret (become_follower (set_conf (blank_node id cfg p) (init_latest_conf p)) 0).
@@ -103,6 +104,8 @@ Section LV.
   Variable VQ : nid -> list entry -> Prop.
   Variable LQ : list entry -> N -> Prop.
   Hypothesis HLQ : forall t, p_term (n_p s0) < t -> LQ (p_log (n_p s0)) t.
+  Variable DC : N -> Prop.            (* "cm is the leaderCommit of the delivered AppEnts" *)
+  Variable RSP : nid -> N -> N -> Prop.    (* "a successful AppEntsResp for this index from this node, of this term, was delivered" *)
 
   (* the old log and the delivered entries disagree (different terms) at position c *)
   Definition conflict_at (L0 : list entry) (a : ainp) (c : nat) : Prop :=
@@ -146,6 +149,32 @@ Section LV.
     n_role s = Leader \/ (n_role s0 = Leader /\ p_term (n_p s) = p_term (n_p s0)).
   Definition strong (s : node) : Prop := n_role s0 = Leader /\ p_term (n_p s) = p_term (n_p s0).
 
+  (* commit-index and peers-table bookkeeping *)
+  Definition cm_msg (c : N) (m : msg) : Prop := match m_body m with AppEnts _ _ cm _ => cm <= c | _ => True end.
+
+  (* the justification of a peers-table entry depends only on its id and match index *)
+  Definition pjust (s : node) (id m : N) : Prop :=
+    m = 0 \/ (strong s /\ exists p0, peer_get id (l_peers s0) = Some p0 /\ pr_match p0 = m) \/ RSP id m (p_term (n_p s)).
+
+  Definition fc_ev (s : node) : Prop :=
+    exists cm idx h m0, DC cm /\ n_commit s <= cm /\ In m0 (n_msgs s) /\ m_body m0 = AppEntsResp true idx h /\ n_commit s <= idx.
+
+  Definition lead_ev (s : node) : Prop :=
+    (n_role s = Leader \/ strong s) /\ n_commit s <= llen (n_p s) /\
+    term_at (p_log (n_p s)) (n_commit s) (p_term (n_p s)) /\
+    exists c Q, n_conf s = Some c /\ NoDup Q /\ quorum c <= N.of_nat (length Q) /\
+                forall v, In v Q -> v = n_id s \/
+                                   exists p, peer_get v (l_peers s) = Some p /\ n_commit s <= pr_match p /\ pjust s v (pr_match p).
+
+  Definition pk (s : node) : Prop :=
+    pasc (l_peers s) /\ (forall p, In p (l_peers s) -> pr_id p <> n_id s) /\
+    forall p, In p (l_peers s) -> pjust s (pr_id p) (pr_match p).
+
+  Definition ext (s : node) : Prop :=
+    Forall (cm_msg (n_commit s)) (n_msgs s) /\
+    True /\ ((n_commit s = n_commit s0 \/ n_commit s = 0) \/ fc_ev s \/ lead_ev s) /\
+    (n_role s = Leader -> pk s).
+
   Record inv (s : node) : Prop := mk_inv {
     v_snap : p_snap (n_p s) = None;
     v_wf : wf_from 1 (p_log (n_p s));
@@ -156,7 +185,8 @@ Section LV.
            n_role s = n_role s0 \/ n_role s = Follower \/ (n_role s0 = Candidate /\ n_role s = Leader);
     v_lr : LR (n_p s) (n_role s);
     v_msgs : Forall (mgood RT VQ LQ (p_log (n_p s))) (n_msgs s);
-    v_lead : no_appents (n_msgs s) \/ leaderish s
+    v_lead : no_appents (n_msgs s) \/ leaderish s;
+    v_ext : ext s
   }.
 
   Record pinv (p : pstate) : Prop := mk_pinv {
@@ -210,19 +240,46 @@ Section LV.
   Lemma no_appents_app a b : no_appents (a ++ b) <-> no_appents a /\ no_appents b.
   Proof. unfold no_appents. apply Forall_app. Qed.
 
+  Lemma ext_frame s s' new :
+    ext s ->
+    n_commit s' = n_commit s -> l_peers s' = l_peers s -> n_id s' = n_id s ->
+    p_log (n_p s') = p_log (n_p s) -> p_term (n_p s') = p_term (n_p s) ->
+    (n_conf s' = n_conf s \/ n_commit s = n_commit s0) ->
+    (n_role s' = n_role s \/ (n_role s' = Follower /\ (strong s \/ n_role s <> Leader))) ->
+    n_msgs s' = n_msgs s ++ new -> Forall (cm_msg (n_commit s)) new ->
+    ext s'.
+  Proof.
+    intros [E1 [E2 [E3 E4]]] Hc Hp Hi Hl Ht Hcf Hr Hm Hn. unfold ext. rewrite Hc.
+    split; [rewrite Hm; apply Forall_app; auto|]. split; [exact E2|]. split.
+    - destruct E3 as [X | [X | X]]; [left; exact X | right; left | ].
+      + destruct X as [cm [idx [h [m0 [A1 [A2 [A3 [A4 A5]]]]]]]]. exists cm, idx, h, m0. rewrite Hc, Hm. repeat split; auto.
+        apply in_or_app. left. exact A3.
+      + destruct Hcf as [Hcf | Hcf]; [right; right | left; left; exact Hcf].
+        destruct X as [B1 [B2 [B3 [c [Q [B4 B5]]]]]]. unfold lead_ev, pjust, strong, llen in *. rewrite Hc, Hl, Ht, Hcf, Hp, Hi.
+        split; [| split; [exact B2 | split; [exact B3 | exists c, Q; split; [exact B4 | exact B5]]]].
+        destruct Hr as [Hr | [Hr [St | Nl]]].
+        * rewrite Hr. exact B1.
+        * right. exact St.
+        * destruct B1 as [B1 | B1]; [contradiction | right; exact B1].
+    - intro Hl'. destruct Hr as [Hr | [Hr _]]; [| congruence]. rewrite Hr in Hl'. specialize (E4 Hl').
+      unfold pk, pjust, strong in *. rewrite Hp, Hi, Ht. exact E4.
+  Qed.
+
   Lemma inv_frame s s' :
     inv s ->
     p_log (n_p s') = p_log (n_p s) -> p_snap (n_p s') = p_snap (n_p s) -> p_term (n_p s') = p_term (n_p s) ->
-    (n_role s' = n_role s \/ (n_role s' = Follower /\ (strong s \/ no_appents (n_msgs s')))) ->
-    (n_conf s' = n_conf s \/ 1 <= p_term (n_p s)) ->
-    (exists new, n_msgs s' = n_msgs s ++ new /\ Forall (mgood RT VQ LQ (p_log (n_p s))) new /\ (no_appents new \/ leaderish s')) ->
+    (n_role s' = n_role s \/ (n_role s' = Follower /\ (strong s \/ (no_appents (n_msgs s') /\ n_role s <> Leader)))) ->
+    (n_conf s' = n_conf s \/ (1 <= p_term (n_p s) /\ n_commit s = n_commit s0)) ->
+    n_commit s' = n_commit s -> l_peers s' = l_peers s -> n_id s' = n_id s ->
+    (exists new, n_msgs s' = n_msgs s ++ new /\ Forall (mgood RT VQ LQ (p_log (n_p s))) new /\ (no_appents new \/ leaderish s') /\
+                 Forall (cm_msg (n_commit s)) new) ->
     inv s'.
   Proof.
-    intros I L S T Rl C [new [M [G Ld]]]. destruct I.
+    intros I L S T Rl C Hc Hp Hi [new [M [G [Ld Cm]]]]. destruct I.
     constructor.
     - rewrite S. auto.
     - rewrite L. auto.
-    - rewrite L, T. destruct C as [C | C]; [rewrite C; auto | auto].
+    - rewrite L, T. destruct C as [C | [C _]]; [rewrite C; auto | auto].
     - rewrite T. destruct Rl as [Rl | [Rl _]]; rewrite Rl; auto; try congruence.
     - rewrite T. auto.
     - rewrite T. intro E. destruct Rl as [Rl | [Rl _]]; rewrite Rl; auto.
@@ -231,34 +288,41 @@ Section LV.
       + eapply LR_same; eauto. eapply LR_follower; eauto.
     - rewrite M, L. apply Forall_app. auto.
     - destruct Ld as [Ld | Ld]; [| right; exact Ld].
-      destruct Rl as [Rl | [Rl [St | Na]]].
+      destruct Rl as [Rl | [Rl [St | [Na _]]]].
       + destruct v_lead0 as [V | V].
         * left. rewrite M. apply no_appents_app. auto.
         * right. unfold leaderish in *. rewrite Rl, T. exact V.
       + right. right. unfold strong in St. rewrite T. exact St.
       + left. exact Na.
+    - eapply ext_frame with (s := s) (new := new); eauto.
+      + destruct C as [C | [_ C]]; auto.
+      + destruct Rl as [Rl | [Rl [St | [_ Nl]]]]; auto.
   Qed.
 
   Lemma inv_vol s s' :
-    inv s -> n_p s' = n_p s -> n_role s' = n_role s -> n_conf s' = n_conf s -> n_msgs s' = n_msgs s -> inv s'.
+    inv s -> n_p s' = n_p s -> n_role s' = n_role s -> n_conf s' = n_conf s -> n_msgs s' = n_msgs s ->
+    n_commit s' = n_commit s -> l_peers s' = l_peers s -> n_id s' = n_id s -> inv s'.
   Proof.
-    intros I P Rl C M.
-    eapply inv_frame; [exact I | rewrite P; reflexivity | rewrite P; reflexivity | rewrite P; reflexivity | left; exact Rl | left; exact C |].
-    exists []. rewrite app_nil_r. split; auto. split; [constructor | left; constructor].
+    intros I P Rl C M Hc Hp Hi.
+    eapply inv_frame; [exact I | rewrite P; reflexivity | rewrite P; reflexivity | rewrite P; reflexivity | left; exact Rl | left; exact C
+                       | exact Hc | exact Hp | exact Hi |].
+    exists []. rewrite app_nil_r. split; auto. split; [constructor | split; [left; constructor | constructor]].
   Qed.
 
   Lemma inv_send s to b :
     inv s -> mgood RT VQ LQ (p_log (n_p s)) {| m_term := p_term (n_p s); m_from := 0; m_to := to; m_fromg := 0; m_tog := 0; m_epoch := 0; m_body := b |} ->
-    ((match b with AppEnts _ _ _ _ => False | _ => True end) \/ leaderish s) ->
+    ((match b with AppEnts _ _ cm _ => False | _ => True end) \/ (leaderish s /\ match b with AppEnts _ _ cm _ => cm <= n_commit s | _ => True end)) ->
     inv (send s to b).
   Proof.
     intros I G Ld.
-    eapply inv_frame; [exact I | reflexivity | reflexivity | reflexivity | left; reflexivity | left; reflexivity |].
-    - eexists. split; [reflexivity|]. split.
-      + constructor; [| constructor]. unfold mgood in *. simpl in *. exact G.
-      + destruct Ld as [Ld | Ld]; [left | right].
-        * constructor; [| constructor]. unfold is_appents. simpl. destruct b; auto.
-        * unfold leaderish in *. simpl. exact Ld.
+    eapply inv_frame; [exact I | reflexivity | reflexivity | reflexivity | left; reflexivity | left; reflexivity
+                       | reflexivity | reflexivity | reflexivity |].
+    eexists. split; [reflexivity|]. split; [| split].
+    - constructor; [| constructor]. unfold mgood in *. simpl in *. exact G.
+    - destruct Ld as [Ld | [Ld _]]; [left | right].
+      + constructor; [| constructor]. unfold is_appents. simpl. destruct b; auto.
+      + unfold leaderish in *. simpl. exact Ld.
+    - constructor; [| constructor]. unfold cm_msg. simpl. destruct Ld as [Ld | [_ Ld]]; destruct b; auto; contradiction.
   Qed.
 
   Lemma inv_pinv s p :
@@ -286,37 +350,41 @@ Section LV.
     intros I Hl. destruct (do_mut_cases m s) as [E | E]; rewrite E; simpl.
     - eapply inv_pinv; eauto; destruct m; simpl in *; try contradiction; reflexivity.
     - split.
-      + eapply inv_frame; [exact I | | | | left; reflexivity | left; reflexivity |];
+      + eapply inv_frame; [exact I | | | | left; reflexivity | left; reflexivity | reflexivity | reflexivity | reflexivity |];
           try (destruct m; simpl in *; try contradiction; reflexivity).
-        exists []. simpl. rewrite app_nil_r. split; auto. split; [constructor | left; constructor].
+        exists []. simpl. rewrite app_nil_r. split; auto. split; [constructor | split; [left; constructor | constructor]].
       + unfold samev. simpl. destruct m; simpl in *; try contradiction; repeat split; reflexivity.
   Qed.
 
   Lemma post_do_mut_light s m : inv s -> light m -> post (do_mut m s).
   Proof. intros. eapply postQ_post. apply postQ_do_mut_light; auto. Qed.
 
-  Ltac vol := eapply inv_vol; [eassumption | reflexivity | reflexivity | reflexivity | reflexivity].
+  Ltac vol := eapply inv_vol; [eassumption | reflexivity | reflexivity | reflexivity | reflexivity | reflexivity | reflexivity | reflexivity].
 
   (* ---------------------------------------------------------------- commit *)
-  Lemma post_commit_up_to s i : inv s -> post (commit_up_to s i).
+  Definition cjust (s : node) (i : N) : Prop :=
+    forall r c, (i = n_commit s0 \/ i = 0) \/ fc_ev (set_commit s i r c) \/ lead_ev (set_commit s i r c).
+
+  Lemma inv_commit s i r c : inv s -> n_commit s <= i -> cjust s i -> inv (set_commit s i r c).
   Proof.
-    intro I. unfold commit_up_to. rewrite (v_snap s I).
-    apply post_bind_pure; [apply pure_log_entries|]. intros ents _.
-    match goal with |- post (if ?c then _ else _) => destruct c end; [| simpl; vol].
-    match goal with |- post (match ?x with _ => _ end) => destruct x eqn:E end; simpl; auto.
-    apply post_do_mut_light; [vol | exact Logic.I].
+    intros I Hi J. destruct I. constructor; simpl; auto.
+    destruct v_ext0 as [E1 [E2 [E3 E4]]]. unfold ext. simpl. split; [| split; [exact Logic.I | split; [exact (J r c) | exact E4]]].
+    eapply Forall_impl; [| exact E1]. intros m. unfold cm_msg. destruct (m_body m); auto. intro; lia.
   Qed.
 
-  Lemma postQ_commit_up_to s i : inv s -> postQ (samev s) (commit_up_to s i).
+  Lemma postQ_commit_up_to s i : inv s -> n_commit s <= i -> cjust s i -> postQ (samev s) (commit_up_to s i).
   Proof.
-    intro I. unfold commit_up_to. rewrite (v_snap s I).
+    intros I Hi J. unfold commit_up_to. rewrite (v_snap s I).
     apply postQ_bind_pure; [apply pure_log_entries|]. intros ents _.
     match goal with |- postQ _ (if ?c then _ else _) => destruct c end.
-    2: { simpl. split; [vol | unfold samev; simpl; repeat split; reflexivity]. }
+    2: { simpl. split; [apply inv_commit; auto | unfold samev; simpl; repeat split; reflexivity]. }
     match goal with |- postQ _ (match ?x with _ => _ end) => destruct x eqn:E end; simpl; auto.
     match goal with |- postQ _ (do_mut ?m ?x) =>
-      assert (Ix : inv x) by vol; pose proof (postQ_do_mut_light x m Ix Logic.I) as H; destruct (do_mut m x); simpl in *; auto end.
+      assert (Ix : inv x) by (apply inv_commit; auto); pose proof (postQ_do_mut_light x m Ix Logic.I) as H; destruct (do_mut m x); simpl in *; auto end.
   Qed.
+
+  Lemma post_commit_up_to s i : inv s -> n_commit s <= i -> cjust s i -> post (commit_up_to s i).
+  Proof. intros. eapply postQ_post. apply postQ_commit_up_to; auto. Qed.
 
   Lemma postQ_mono (Q Q' : node -> Prop) r : (forall x, Q x -> Q' x) -> postQ Q r -> postQ Q' r.
   Proof. intros H. destruct r; simpl; auto. intros [A B]. auto. Qed.
@@ -327,8 +395,15 @@ Section LV.
   Lemma samev_refl a : samev a a.
   Proof. unfold samev. repeat split; reflexivity. Qed.
 
-  Lemma post_follower_maybe_commit s lc mi : inv s -> post (follower_maybe_commit s lc mi).
-  Proof. intro I. unfold follower_maybe_commit. destruct (n_commit s <? N.min mi lc); [apply post_commit_up_to; auto | simpl; auto]. Qed.
+  (* the follower's commit: never beyond the leader's commit index nor beyond the index it has just acknowledged *)
+  Lemma post_follower_maybe_commit s lc mi m0 h :
+    inv s -> DC lc -> In m0 (n_msgs s) -> m_body m0 = AppEntsResp true mi h ->
+    post (follower_maybe_commit s lc mi).
+  Proof.
+    intros I Hdc Hm Hb. unfold follower_maybe_commit. destruct (n_commit s <? N.min mi lc) eqn:E; [| simpl; auto].
+    apply N.ltb_lt in E. apply post_commit_up_to; auto; [lia|].
+    intros r c. right. left. exists lc, mi, h, m0. simpl. repeat split; auto; lia.
+  Qed.
 
   (* ---------------------------------------------------------------- what a leader sends *)
   Lemma firstn_length_self {A} k (l : list A) : firstn k l = firstn (length (firstn k l)) l.
@@ -340,16 +415,16 @@ Section LV.
 
   Lemma get_app_ents_slice s p b :
     p_snap (n_p s) = None -> wf_from 1 (p_log (n_p s)) -> get_app_ents s p = Ret (Some b) ->
-    exists pi pt cm oe, b = AppEnts pi pt cm oe /\ slice (p_log (n_p s)) pi pt oe.
+    exists pi pt cm oe, b = AppEnts pi pt cm oe /\ slice (p_log (n_p s)) pi pt oe /\ cm = n_commit s.
   Proof.
     intros Hs Hw. unfold get_app_ents. destruct (negb (pr_next p =? pr_match p + 1)).
     - destruct (st_term (n_p s) (pr_next p - 1)) as [[pt ok] | |] eqn:E; simpl; try discriminate.
       destruct (st_term_wf _ _ _ _ Hs Hw E) as [Ok [Le [_ Ta]]]. subst ok. simpl. intro H. inversion H.
-      eexists _, _, _, _. split; [reflexivity|]. unfold slice. unfold llen in Le. repeat split; auto.
+      eexists _, _, _, _. split; [reflexivity|]. split; [| reflexivity]. unfold slice. unfold llen in Le. repeat split; auto.
     - destruct (pr_match p =? last_index (n_p s)).
       + destruct (st_term (n_p s) (pr_match p)) as [[pt ok] | |] eqn:E; simpl; try discriminate.
         destruct (st_term_wf _ _ _ _ Hs Hw E) as [Ok [Le [_ Ta]]]. subst ok. simpl. intro H. inversion H.
-        eexists _, _, _, _. split; [reflexivity|]. unfold slice. unfold llen in Le. repeat split; auto.
+        eexists _, _, _, _. split; [reflexivity|]. split; [| reflexivity]. unfold slice. unfold llen in Le. repeat split; auto.
       + unfold get_log_entries. replace (pr_match p + 1 - 1) with (pr_match p) by lia.
         destruct (st_term (n_p s) (pr_match p)) as [[pt ok] | |] eqn:E; simpl; try discriminate.
         destruct (st_term_wf _ _ _ _ Hs Hw E) as [Ok [Le [_ Ta]]]. subst ok. simpl.
@@ -359,7 +434,7 @@ Section LV.
         assert (X : (pr_match p + 1 <? 1) = false) by (apply N.ltb_ge; lia). rewrite X.
         match goal with |- context [if ?c then Fatal _ else _] => destruct c end; [discriminate|].
         rewrite log_entries_wf; auto; [| lia]. simpl. intro H. inversion H.
-        eexists _, _, _, _. split; [reflexivity|]. unfold slice. unfold llen in Le. repeat split; auto.
+        eexists _, _, _, _. split; [reflexivity|]. split; [| reflexivity]. unfold slice. unfold llen in Le. repeat split; auto.
         replace (N.to_nat (pr_match p + 1 - 1)) with (N.to_nat (pr_match p)) by lia. apply firstn_length_self.
   Qed.
 
@@ -367,17 +442,73 @@ Section LV.
   Proof. destruct l as [| p r]; simpl; [discriminate|]. destruct (pr_id q =? pr_id p); [discriminate|]. destruct (pr_id q <? pr_id p); discriminate. Qed.
 
   Definition sameL (s s1 : node) : Prop :=
-    p_log (n_p s1) = p_log (n_p s) /\ p_term (n_p s1) = p_term (n_p s) /\ n_role s1 = n_role s /\ l_peers s1 <> [].
+    p_log (n_p s1) = p_log (n_p s) /\ p_term (n_p s1) = p_term (n_p s) /\ n_role s1 = n_role s /\ l_peers s1 <> [] /\
+    n_id s1 = n_id s /\
+    (forall id p1, peer_get id (l_peers s1) = Some p1 -> exists p0, peer_get id (l_peers s) = Some p0 /\ pr_match p0 = pr_match p1).
 
-  Lemma postQ_send_app_ents s p : inv s -> leaderish s -> postQ (sameL s) (send_app_ents s p).
+  Lemma peer_get_set id q l : peer_get id (peer_set q l) = if pr_id q =? id then Some q else peer_get id l.
   Proof.
-    intros I Ld. unfold send_app_ents. apply postQ_bind_pure; [apply pure_get_app_ents|]. intros ob Hob.
+    induction l as [| p r IH]; simpl.
+    - destruct (pr_id q =? id); reflexivity.
+    - destruct (pr_id q =? pr_id p) eqn:E.
+      + apply N.eqb_eq in E. simpl. rewrite <- E. destruct (pr_id q =? id); reflexivity.
+      + destruct (pr_id q <? pr_id p); simpl.
+        * destruct (pr_id q =? id); reflexivity.
+        * rewrite IH. destruct (pr_id p =? id) eqn:E2; [| reflexivity].
+          apply N.eqb_eq in E2. subst id. rewrite E. reflexivity.
+  Qed.
+
+  (* replace / insert one peers-table entry: match indices never decrease, the entry is justified *)
+  Lemma inv_peer_set s q chk :
+    inv s ->
+    (forall p0, peer_get (pr_id q) (l_peers s) = Some p0 -> pr_match p0 <= pr_match q) ->
+    (pjust s (pr_id q) (pr_match q) \/
+     exists p0, peer_get (pr_id q) (l_peers s) = Some p0 /\ pr_match p0 = pr_match q /\
+                (n_role s = Leader \/ pjust s (pr_id q) (pr_match p0) \/ True)) ->
+    (n_role s = Leader -> pr_id q <> n_id s) ->
+    inv (set_leader s chk (peer_set q (l_peers s))).
+  Proof.
+    intros I Hmono Hj Hl. destruct I. constructor; simpl; auto.
+    destruct v_ext0 as [E1 [E2 [E3 E4]]]. unfold ext. simpl. split; [exact E1|]. split; [exact E2|]. split.
+    - destruct E3 as [X | [X | X]]; [left; exact X | right; left; exact X | right; right].
+      destruct X as [B1 [B2 [B3 [c [Q [B4 [B5 [B6 B7]]]]]]]]. unfold lead_ev. simpl.
+      split; [exact B1|]. split; [exact B2|]. split; [exact B3|]. exists c, Q. repeat split; auto.
+      intros v Hv. destruct (B7 v Hv) as [Y | [p [Y1 [Y2 Y3]]]]; [left; exact Y | right].
+      rewrite peer_get_set. destruct (pr_id q =? v) eqn:Eq.
+      + apply N.eqb_eq in Eq. subst v. exists q. split; auto. specialize (Hmono p Y1). split; [lia|].
+        destruct Hj as [Hj | [p0 [Z1 [Z2 _]]]]; [exact Hj|]. rewrite Y1 in Z1. inversion Z1. subst p0. rewrite <- Z2. exact Y3.
+      + exists p. auto.
+    - intro Hr. specialize (E4 Hr). specialize (Hl Hr). destruct E4 as [P1 [P2 P3]]. unfold pk. simpl.
+      split; [apply pasc_peer_set; exact P1|]. split.
+      + intros p Hp. destruct (in_peer_set p q _ P1 Hp) as [X | [X _]]; [subst; exact Hl | apply P2; exact X].
+      + intros p Hp. destruct (in_peer_set p q _ P1 Hp) as [X | [X _]]; [| apply P3; exact X]. subst p.
+        destruct Hj as [Hj | [p0 [Y1 [Y2 _]]]]; [exact Hj|].
+        apply peer_get_some in Y1. destruct Y1 as [Y1 Y3]. specialize (P3 p0 Y1). rewrite Y3, Y2 in P3. exact P3.
+  Qed.
+
+  Lemma postQ_send_app_ents s p :
+    inv s -> leaderish s -> (exists p', peer_get (pr_id p) (l_peers s) = Some p' /\ pr_match p' = pr_match p) ->
+    postQ (sameL s) (send_app_ents s p).
+  Proof.
+    intros I Ld [p' [Hp' Hm']]. unfold send_app_ents. apply postQ_bind_pure; [apply pure_get_app_ents|]. intros ob Hob.
+    assert (Hset : forall s1 sn, inv s1 -> l_peers s1 = l_peers s -> n_role s1 = n_role s -> n_id s1 = n_id s ->
+                     (strong s1 <-> strong s) ->
+                     inv (set_leader s1 (l_check s1) (peer_set (mk_peer (pr_id p) (pr_next p) (pr_match p) sn (n_elapsed s) (pr_recv p)) (l_peers s1)))).
+    { intros s1 sn I1 E1 E2 E3 E4. apply inv_peer_set; auto; simpl.
+      - intros p0 H0. rewrite E1, Hp' in H0. inversion H0. subst. lia.
+      - right. exists p'. rewrite E1. split; [exact Hp' | split; [exact Hm' | right; right; exact Logic.I]].
+      - intro Hr. rewrite E2 in Hr. pose proof (v_ext s I) as [_ [_ [_ PK]]]. specialize (PK Hr). destruct PK as [P1 [P2 P3]].
+        apply peer_get_some in Hp'. destruct Hp' as [Y1 Y2]. rewrite E3, <- Y2. apply P2. exact Y1. }
     destruct ob as [b |].
-    - destruct (get_app_ents_slice s p b (v_snap s I) (v_wf s I) Hob) as [pi [pt [cm [oe [Eb Sl]]]]]. subst b.
+    - destruct (get_app_ents_slice s p b (v_snap s I) (v_wf s I) Hob) as [pi [pt [cm [oe [Eb [Sl Ecm]]]]]]. subst b.
       simpl. split.
-      + eapply inv_vol with (s := send s (pr_id p) (AppEnts pi pt cm oe)); try reflexivity.
-        apply inv_send; [exact I | unfold mgood; simpl; exact Sl | right; exact Ld].
-      + unfold sameL. simpl. repeat split; auto. apply peer_set_nonempty.
+      + apply (Hset (send s (pr_id p) (AppEnts pi pt cm oe)) (pr_snap p)); try reflexivity.
+        apply inv_send; [exact I | unfold mgood; simpl; exact Sl | right; split; [exact Ld | rewrite Ecm; apply N.le_refl]].
+      + unfold sameL. simpl. split; [reflexivity|]. split; [reflexivity|]. split; [reflexivity|].
+        split; [apply peer_set_nonempty|]. split; [reflexivity|].
+        intros id p1. rewrite peer_get_set. simpl. destruct (pr_id p =? id) eqn:Eq.
+        * apply N.eqb_eq in Eq. subst id. intro X. inversion X. subst p1. simpl. exists p'. auto.
+        * intro X. exists p1. auto.
     - rewrite (v_snap s I). simpl. exact Logic.I.
   Qed.
 
@@ -388,11 +519,14 @@ Section LV.
   Proof. unfold strong, sameL. intros [A B] [_ [C _]]. split; congruence. Qed.
 
   Lemma post_for_peers (Q : node -> Prop) ids f :
-    (forall s1 p, inv s1 -> Q s1 -> postQ Q (f s1 p)) -> forall s, inv s -> Q s -> postQ Q (for_peers ids f s).
+    (forall s1 p, inv s1 -> Q s1 -> peer_get (pr_id p) (l_peers s1) = Some p -> postQ Q (f s1 p)) ->
+    forall s, inv s -> Q s -> postQ Q (for_peers ids f s).
   Proof.
     intro Hf. induction ids as [| id r IH]; intros s I HQ; simpl; auto.
-    destruct (peer_get id (l_peers s)); auto.
-    eapply postQ_bindQ; [apply Hf; auto|]. intros s1 I1 Q1. apply IH; auto.
+    destruct (peer_get id (l_peers s)) eqn:E; auto.
+    eapply postQ_bindQ; [apply Hf; auto|].
+    - destruct (peer_get_some _ _ _ E) as [_ X]. rewrite X. exact E.
+    - intros s1 I1 Q1. apply IH; auto.
   Qed.
 
   Lemma postQ_ret (Q : node -> Prop) s : inv s -> Q s -> postQ Q (Ret s).
@@ -400,17 +534,35 @@ Section LV.
 
   Lemma inv_follower s s' :
     inv s -> n_p s' = n_p s -> n_role s' = Follower -> n_conf s' = n_conf s -> n_msgs s' = n_msgs s ->
-    strong s \/ no_appents (n_msgs s) -> inv s'.
+    n_commit s' = n_commit s -> l_peers s' = l_peers s -> n_id s' = n_id s ->
+    strong s \/ (no_appents (n_msgs s) /\ n_role s <> Leader) -> inv s'.
   Proof.
-    intros I P Rl C M St.
-    eapply inv_frame; [exact I | rewrite P; reflexivity | rewrite P; reflexivity | rewrite P; reflexivity | | left; exact C |].
+    intros I P Rl C M Hc Hp Hi St.
+    eapply inv_frame; [exact I | rewrite P; reflexivity | rewrite P; reflexivity | rewrite P; reflexivity | | left; exact C
+                       | exact Hc | exact Hp | exact Hi |].
     - right. split; auto. rewrite M. exact St.
-    - exists []. rewrite app_nil_r. split; auto. split; [constructor | left; constructor].
+    - exists []. rewrite app_nil_r. split; auto. split; [constructor | split; [left; constructor | constructor]].
   Qed.
 
-  Lemma postQ_leader_commit_up_to_strong s i : inv s -> strong s -> postQ strong (leader_commit_up_to s i).
+  (* the evidence for a leader's commit by counting, read off findMajorityIndex *)
+  Lemma leader_cjust s mi t :
+    inv s -> n_role s = Leader -> find_majority_index s = Ret mi -> st_term (n_p s) mi = Ret (t, true) -> t = p_term (n_p s) ->
+    cjust s mi /\ (l_peers s = [] -> in_latest_conf s = true).
   Proof.
-    intros I St. unfold leader_commit_up_to. eapply postQ_bindQ; [apply postQ_commit_up_to; auto|].
+    intros I Hr Hf Hst Ht. pose proof (v_ext s I) as [_ [_ [_ PK]]]. destruct (PK Hr) as [P1 [P2 P3]].
+    destruct (st_term_wf _ _ _ _ (v_snap s I) (v_wf s I) Hst) as [_ [Hle [_ Ta]]].
+    assert (Hli : mi <= last_index (n_p s)) by (rewrite (last_index_wf _ (v_snap s I) (v_wf s I)); exact Hle).
+    destruct (majority_evidence s mi Hf P1 P2 Hli) as [c [Q [B1 [B2 [B3 [B4 B5]]]]]]. split; [| exact B5].
+    intros r cc. right. right. unfold lead_ev. simpl. split; [left; exact Hr|]. split; [exact Hle|]. split; [rewrite <- Ht; exact Ta|].
+    exists c, Q. repeat split; auto.
+    intros v Hv. destruct (B4 v Hv) as [X | [p [X1 X2]]]; [left; exact X | right]. exists p. split; auto. split; auto.
+    destruct (peer_get_some _ _ _ X1) as [Y1 Y2]. rewrite <- Y2. apply P3. exact Y1.
+  Qed.
+
+  Lemma postQ_leader_commit_up_to_strong s i :
+    inv s -> strong s -> n_commit s <= i -> cjust s i -> postQ strong (leader_commit_up_to s i).
+  Proof.
+    intros I St Hi J. unfold leader_commit_up_to. eapply postQ_bindQ; [apply postQ_commit_up_to; auto|].
     intros s1 I1 [_ [T1 _]].
     assert (St1 : strong s1) by (unfold strong in *; destruct St; split; congruence).
     match goal with |- postQ _ (if ?c then _ else _) => destruct c end; simpl; [| auto].
@@ -419,37 +571,38 @@ Section LV.
   Qed.
 
   Lemma postQ_leader_commit_up_to_weak s i :
-    inv s -> no_appents (n_msgs s) -> l_peers s = [] ->
+    inv s -> no_appents (n_msgs s) -> l_peers s = [] -> in_latest_conf s = true -> n_commit s <= i -> cjust s i ->
     postQ (fun x => no_appents (n_msgs x) /\ l_peers x = []) (leader_commit_up_to s i).
   Proof.
-    intros I Na Lp. unfold leader_commit_up_to. eapply postQ_bindQ; [apply postQ_commit_up_to; auto|].
-    intros s1 I1 [_ [_ [_ [M1 [_ [P1 _]]]]]].
+    intros I Na Lp Hic Hi J. unfold leader_commit_up_to. eapply postQ_bindQ; [apply postQ_commit_up_to; auto|].
+    intros s1 I1 [_ [_ [_ [M1 [C1 [P1 Id1]]]]]].
     assert (Na1 : no_appents (n_msgs s1)) by (rewrite M1; auto).
-    match goal with |- postQ _ (if ?c then _ else _) => destruct c end; simpl; [| split; auto; split; auto; congruence].
-    split; [| split; auto; congruence].
-    eapply inv_follower; eauto; reflexivity.
+    assert (Hic1 : in_latest_conf s1 = true) by (unfold in_latest_conf in *; rewrite C1, Id1; exact Hic).
+    rewrite Hic1. simpl. rewrite andb_false_r. simpl. split; auto. split; auto. congruence.
   Qed.
 
-  Lemma post_leader_maybe_commit_strong s : inv s -> strong s -> postQ strong (leader_maybe_commit s).
+  Lemma post_leader_maybe_commit_strong s : inv s -> strong s -> n_role s = Leader -> postQ strong (leader_maybe_commit s).
   Proof.
-    intros I St. unfold leader_maybe_commit. apply postQ_bind_pure; [apply pure_find_majority_index|]. intros mi _.
-    destruct (n_commit s <? mi); [| apply postQ_ret; auto].
-    apply postQ_bind_pure; [apply pure_st_term|]. intros [t ok] _.
-    destruct (negb ok); simpl; auto. destruct (negb (t =? p_term (n_p s))); [apply postQ_ret; auto|].
-    eapply postQ_bindQ; [apply postQ_leader_commit_up_to_strong; auto|]. intros s1 I1 St1.
-    apply post_for_peers; auto. intros s2 p I2 St2.
+    intros I St Hr. unfold leader_maybe_commit. apply postQ_bind_pure; [apply pure_find_majority_index|]. intros mi Hf.
+    destruct (n_commit s <? mi) eqn:Ec; [| apply postQ_ret; auto]. apply N.ltb_lt in Ec.
+    apply postQ_bind_pure; [apply pure_st_term|]. intros [t ok] Hst.
+    destruct ok; simpl; auto. destruct (t =? p_term (n_p s)) eqn:Et; simpl; [| apply postQ_ret; auto]. apply N.eqb_eq in Et.
+    destruct (leader_cjust s mi t I Hr Hf Hst Et) as [J _].
+    eapply postQ_bindQ; [apply postQ_leader_commit_up_to_strong; auto; lia|]. intros s1 I1 St1.
+    apply post_for_peers; auto. intros s2 p I2 St2 Hp.
     destruct (pr_match p =? last_index (n_p s2)); [| apply postQ_ret; auto].
-    eapply postQ_mono; [| apply postQ_send_app_ents; auto using strong_leaderish]. intros x. apply sameL_strong; auto.
+    eapply postQ_mono; [| apply postQ_send_app_ents; eauto using strong_leaderish]. intros x. apply sameL_strong; auto.
   Qed.
 
   Lemma post_leader_maybe_commit_weak s :
-    inv s -> no_appents (n_msgs s) -> l_peers s = [] -> post (leader_maybe_commit s).
+    inv s -> no_appents (n_msgs s) -> l_peers s = [] -> n_role s = Leader -> post (leader_maybe_commit s).
   Proof.
-    intros I Na Lp. unfold leader_maybe_commit. apply post_bind_pure; [apply pure_find_majority_index|]. intros mi _.
-    destruct (n_commit s <? mi); [| simpl; auto].
-    apply post_bind_pure; [apply pure_st_term|]. intros [t ok] _.
-    destruct (negb ok); simpl; auto. destruct (negb (t =? p_term (n_p s))); [simpl; auto|].
-    eapply postQ_bind; [apply postQ_leader_commit_up_to_weak; auto|]. intros s1 I1 [Na1 Lp1].
+    intros I Na Lp Hr. unfold leader_maybe_commit. apply post_bind_pure; [apply pure_find_majority_index|]. intros mi Hf.
+    destruct (n_commit s <? mi) eqn:Ec; [| simpl; auto]. apply N.ltb_lt in Ec.
+    apply post_bind_pure; [apply pure_st_term|]. intros [t ok] Hst.
+    destruct ok; simpl; auto. destruct (t =? p_term (n_p s)) eqn:Et; simpl; [| auto]. apply N.eqb_eq in Et.
+    destruct (leader_cjust s mi t I Hr Hf Hst Et) as [J Hic].
+    eapply postQ_bind; [apply postQ_leader_commit_up_to_weak; auto; lia|]. intros s1 I1 [Na1 Lp1].
     unfold peer_ids. rewrite Lp1. simpl. exact I1.
   Qed.
 
@@ -460,30 +613,45 @@ Section LV.
     - right. right. right. left. exact H.
   Qed.
 
-  Definition foldq (x : node) : Prop := n_role x = Leader /\ (l_peers x = [] -> no_appents (n_msgs x)).
+  Definition foldq (id0 : nid) (x : node) : Prop :=
+    n_role x = Leader /\ n_id x = id0 /\ (l_peers x = [] -> no_appents (n_msgs x)) /\
+    (forall id p, peer_get id (l_peers x) = Some p -> pr_match p = 0).
 
-  Lemma post_fold_enter (others : list nid) li : forall (acc : R node),
-    postQ foldq acc ->
-    postQ foldq (fold_left (fun (acc : R node) (m : nid) =>
+  Lemma post_fold_enter (others : list nid) li id0 :
+    Forall (fun m => m <> id0) others ->
+    forall (acc : R node),
+    postQ (foldq id0) acc ->
+    postQ (foldq id0) (fold_left (fun (acc : R node) (m : nid) =>
                        a <- acc ;;
                        let p := mk_peer m (li + 1) 0 false 0 0 in
                        let a1 := set_leader a (l_check a) (peer_set p (l_peers a)) in
                        send_app_ents a1 p) others acc).
   Proof.
-    induction others as [| m r IH]; intros acc H; simpl; auto.
-    apply IH. eapply postQ_bindQ; [exact H|]. intros s1 I1 [R1 _].
-    eapply postQ_mono; [| apply postQ_send_app_ents].
-    - intros x [_ [_ [Rx Px]]]. split; [simpl in Rx; congruence | intro; contradiction].
-    - vol.
-    - left. simpl. exact R1.
+    induction 1 as [| m r Hm Hr IH]; intros acc H; simpl; auto.
+    apply IH. eapply postQ_bindQ; [exact H|]. intros s1 I1 [R1 [Id1 [_ Z1]]].
+    set (p := mk_peer m (li + 1) 0 false 0 0).
+    assert (Ia1 : inv (set_leader s1 (l_check s1) (peer_set p (l_peers s1)))).
+    { apply inv_peer_set; auto; simpl.
+      - intros p0 H0. rewrite (Z1 _ _ H0). lia.
+      - left. left. reflexivity.
+      - intros _. congruence. }
+    eapply postQ_mono; [| apply postQ_send_app_ents; [exact Ia1 | left; simpl; exact R1 |]].
+    - intros x [_ [_ [Rx [Px [Ix Mx]]]]]. simpl in *. split; [congruence|]. split; [congruence|]. split; [intro; contradiction|].
+      intros id q Hq. destruct (Mx id q Hq) as [q0 [Y1 Y2]]. rewrite <- Y2.
+      rewrite peer_get_set in Y1. simpl in Y1. destruct (m =? id); [inversion Y1; reflexivity | eapply Z1; eauto].
+    - simpl. exists p. split; [rewrite peer_get_set; simpl; rewrite N.eqb_refl; reflexivity | reflexivity].
   Qed.
 
-  Lemma post_enter_leader s : inv s -> n_role s = Leader -> no_appents (n_msgs s) -> post (enter_leader s).
+  Lemma post_enter_leader s :
+    inv (set_leader s (l_check s) []) -> n_role s = Leader -> no_appents (n_msgs s) -> post (enter_leader s).
   Proof.
     intros I Rl Na. unfold enter_leader. destruct (n_conf s); simpl; auto.
     eapply postQ_bind.
-    - apply post_fold_enter. simpl. split; [vol|]. split; simpl; auto.
-    - intros s1 I1 [R1 P1]. destruct (l_peers s1) eqn:El; [| simpl; auto].
+    - apply post_fold_enter with (id0 := n_id s).
+      + apply Forall_forall. intros x Hx. apply filter_In in Hx. destruct Hx as [_ Hx].
+        apply negb_true_iff in Hx. apply N.eqb_neq in Hx. exact Hx.
+      + simpl. split; [exact I|]. split; [exact Rl|]. split; [reflexivity|]. split; [intros _; exact Na|]. intros id p X. discriminate.
+    - intros s1 I1 [R1 [_ [P1 _]]]. destruct (l_peers s1) eqn:El; [| simpl; auto].
       apply post_leader_maybe_commit_weak; auto.
   Qed.
 
@@ -494,6 +662,11 @@ Section LV.
     - intros _. apply v_n4. congruence.
     - intro E. right. right. split; auto. destruct (v_rt0 E) as [X | [X | [_ X]]]; congruence.
     - eapply LR_nonfollower; [| exact v_lr0]. congruence.
+    - destruct v_ext0 as [E1 [E2 [E3 E4]]]. unfold ext. simpl. split; [exact E1|]. split; [exact E2|]. split.
+      + destruct E3 as [X | [X | X]]; [left; exact X | right; left; exact X | exfalso].
+        destruct X as [[B1 | [B1 B2]] _]; [congruence|].
+        destruct (v_rt0 B2) as [X | [X | [X _]]]; congruence.
+      + intros _. unfold pk. simpl. split; [exact Logic.I|]. split; intros p [].
   Qed.
 
   Lemma post_check_if_elected s : inv s -> n_role s = Candidate -> no_appents (n_msgs s) -> post (check_if_elected s).
@@ -505,34 +678,55 @@ Section LV.
   Lemma post_tick_leader s : inv s -> strong s -> post (tick_leader s).
   Proof.
     intros I St. unfold tick_leader. eapply postQ_bind.
-    - apply post_for_peers with (Q := strong); auto. intros s2 p I2 St2.
+    - apply post_for_peers with (Q := strong); auto. intros s2 p I2 St2 Hp.
       destruct (should_send s2 p); [| apply postQ_ret; auto].
-      eapply postQ_mono; [| apply postQ_send_app_ents; auto using strong_leaderish]. intros x. apply sameL_strong; auto.
+      eapply postQ_mono; [| apply postQ_send_app_ents; [exact I2 | apply strong_leaderish; exact St2 | exists p; auto]].
+      intros x. apply sameL_strong; auto.
     - intros s1 I1 St1.
       match goal with |- post (if ?c then _ else _) => destruct c end; [| simpl; vol].
       apply post_bind_pure; [apply pure_check_quorum_active|]. intros ok _. destruct ok; simpl; [vol|].
       eapply inv_follower; eauto; reflexivity.
   Qed.
 
-  Lemma post_handle_app_ents_resp s from su ix hi : inv s -> strong s -> post (handle_app_ents_resp s from su ix hi).
+  Lemma post_handle_app_ents_resp s from su ix hi :
+    inv s -> strong s -> n_role s = Leader -> (su = true -> RSP from ix (p_term (n_p s))) -> post (handle_app_ents_resp s from su ix hi).
   Proof.
-    intros I St. unfold handle_app_ents_resp. destruct (peer_get from (l_peers s)); [| simpl; auto].
-    destruct (ix <? pr_match p); [simpl; auto|]. destruct (negb su).
-    - eapply postQ_post. apply postQ_send_app_ents; [vol | apply strong_leaderish; exact St].
+    intros I St Hr Hrsp. unfold handle_app_ents_resp. destruct (peer_get from (l_peers s)) as [p |] eqn:Ep; [| simpl; auto].
+    destruct (peer_get_some _ _ _ Ep) as [Hin Hid].
+    destruct (ix <? pr_match p) eqn:Elt; [simpl; auto|]. apply N.ltb_ge in Elt.
+    pose proof (v_ext s I) as [_ [_ [_ PK]]]. destruct (PK Hr) as [P1 [P2 P3]].
+    assert (Hset : forall q chk, pr_id q = from -> pr_match p <= pr_match q ->
+                     (pr_match q = pr_match p \/ RSP from (pr_match q) (p_term (n_p s))) ->
+                     inv (set_leader s chk (peer_set q (l_peers s)))).
+    { intros q chk Hq Hm Hj. apply inv_peer_set; auto.
+      - intros p0 H0. rewrite Hq, Ep in H0. inversion H0. subst. exact Hm.
+      - destruct Hj as [Hj | Hj]; [right; exists p; rewrite Hq; split; [exact Ep | split; [symmetry; exact Hj | left; exact Hr]]
+                                  | left; right; right; rewrite Hq; exact Hj].
+      - intros _. rewrite Hq, <- Hid. apply P2. exact Hin. }
+    destruct su; simpl.
     - match goal with |- post (if ?c then _ else _) => destruct c end; simpl; auto.
-      eapply postQ_bind with (Q := strong).
+      match goal with |- post (bind (if _ then send_app_ents ?x ?q else _) _) =>
+        assert (I1 : inv x) by (apply Hset; simpl; [exact Hid | exact Elt | right; apply Hrsp; reflexivity]);
+        assert (Hq : peer_get (pr_id q) (l_peers x) = Some q) by (simpl; rewrite peer_get_set; simpl; rewrite N.eqb_refl; reflexivity) end.
+      eapply postQ_bind with (Q := fun x => strong x /\ n_role x = Leader).
       + match goal with |- postQ _ (if ?c then _ else _) => destruct c end.
-        * eapply postQ_mono; [| apply postQ_send_app_ents; [vol | apply strong_leaderish; exact St]].
-          intros x. apply sameL_strong. exact St.
-        * apply postQ_ret; [vol | exact St].
-      + intros s2 I2 St2. eapply postQ_post. apply post_leader_maybe_commit_strong; auto.
+        * eapply postQ_mono; [| apply postQ_send_app_ents; [exact I1 | apply strong_leaderish; exact St | eexists; split; [exact Hq | reflexivity]]].
+          intros x [_ [T [R _]]]. split; [unfold strong in *; simpl in *; destruct St; split; congruence | simpl in R; congruence].
+        * apply postQ_ret; [exact I1 | split; [exact St | exact Hr]].
+      + intros s2 I2 [St2 R2]. eapply postQ_post. apply post_leader_maybe_commit_strong; auto.
+    - match goal with |- post (send_app_ents ?x ?q) =>
+        assert (I1 : inv x) by (apply Hset; simpl; [exact Hid | apply N.le_refl | left; reflexivity]);
+        assert (Hq : peer_get (pr_id q) (l_peers x) = Some q) by (simpl; rewrite peer_get_set; simpl; rewrite N.eqb_refl; reflexivity) end.
+      eapply postQ_post. apply postQ_send_app_ents; [exact I1 | apply strong_leaderish; exact St | eexists; split; [exact Hq | reflexivity]].
   Qed.
 
-  Lemma post_handle_leader s m : inv s -> strong s -> post (handle_leader s m).
+  Lemma post_handle_leader s m :
+    inv s -> strong s -> n_role s = Leader ->
+    (match m_body m with AppEntsResp true ix _ => RSP (m_from m) ix (p_term (n_p s)) | _ => True end) -> post (handle_leader s m).
   Proof.
-    intros I St. unfold handle_leader. destruct (m_body m); simpl; auto.
-    - apply post_handle_app_ents_resp; auto.
-    - apply inv_send; auto. unfold mgood. simpl. exact Logic.I.
+    intros I St Hr Hm. unfold handle_leader. destruct (m_body m); simpl; auto.
+    - apply post_handle_app_ents_resp; auto. intro E. subst success. exact Hm.
+    - apply inv_send; [exact I | unfold mgood; simpl; exact Logic.I | left; exact Logic.I].
   Qed.
 
   (* ---------------------------------------------------------------- conflictIndex on a log without snapshot *)
@@ -647,12 +841,22 @@ Section LV.
       ((pin + length ents <= c)%nat -> agree L0 ents pin (pin + length ents - 1)) /\
       (c = length L0 \/ conflict_at L0 ain c).
 
+    Lemma ext_quiet y : n_commit y = n_commit s -> n_role y = Follower -> n_msgs y = [] -> ext y.
+    Proof.
+      intros Hc Ry My. destruct (v_ext s I) as [E1 [E2 [E3 E4]]]. unfold ext. rewrite Hc, My, Ry.
+      split; [constructor|]. split; [exact E2|]. split; [| intro X; discriminate].
+      left. destruct E3 as [X | [X | X]]; [exact X | exfalso | exfalso].
+      - destruct X as [cm [idx [h [m0 [_ [_ [X _]]]]]]]. rewrite Hm in X. contradiction.
+      - destruct X as [[X | X] _]; [congruence | contradiction].
+    Qed.
+
     Lemma inv_trunc c y :
+      n_commit y = n_commit s ->
       conflict_at L0 ain c ->
       (c <= length L0)%nat -> p_log (n_p y) = firstn c L0 -> p_snap (n_p y) = None -> p_term (n_p y) = p_term (n_p s) ->
       n_role y = Follower -> n_msgs y = [] -> inv y.
     Proof.
-      intros Hcf Hc Ly Sy Ty Ry My. destruct I. constructor.
+      intros Hcm Hcf Hc Ly Sy Ty Ry My. pose proof (ext_quiet y Hcm Ry My) as Ex. destruct I. constructor.
       - exact Sy.
       - rewrite Ly. apply wf_from_firstn. unfold L0. rewrite <- Hl. auto.
       - right. rewrite Ty. exact Ht1.
@@ -663,6 +867,7 @@ Section LV.
         exists ain, c. split; [exact Hin|]. split; [exact Ty|]. split; [exact Ly | exact Hcf].
       - rewrite My. constructor.
       - left. rewrite My. constructor.
+      - exact Ex.
     Qed.
 
     Lemma pinv_trunc c p :
@@ -698,12 +903,13 @@ Section LV.
     Qed.
 
     Lemma inv_merged c y :
+      n_commit y = n_commit s ->
       qtrunc c -> (c < pin + length ents)%nat ->
       p_log (n_p y) = firstn c L0 ++ skipn (c - pin) ents -> p_snap (n_p y) = None -> p_term (n_p y) = p_term (n_p s) ->
       n_role y = Follower -> n_msgs y = [] -> inv y.
     Proof.
-      intros Q Hlt Ly Sy Ty Ry My. pose proof (merged_ok c Q Hlt) as Mg. pose proof (wf_merged c Q) as Wm.
-      destruct I. constructor.
+      intros Hcm Q Hlt Ly Sy Ty Ry My. pose proof (merged_ok c Q Hlt) as Mg. pose proof (wf_merged c Q) as Wm.
+      pose proof (ext_quiet y Hcm Ry My) as Ex. destruct I. constructor.
       - exact Sy.
       - rewrite Ly. exact Wm.
       - right. rewrite Ty. exact Ht1.
@@ -714,6 +920,7 @@ Section LV.
         eexists. split; [exact Hin|]. simpl. rewrite Ly. split; auto.
       - rewrite My. constructor.
       - left. rewrite My. constructor.
+      - exact Ex.
     Qed.
 
     Lemma pinv_merged c p :
@@ -740,9 +947,15 @@ Section LV.
 
   Lemma post_handle_app_ents s from pi pt cm oes :
     inv s -> n_msgs s = [] -> n_role s = Follower -> p_log (n_p s) = p_log (n_p s0) -> in_ok s pi pt oes -> ~ strong s ->
+    DC cm ->
     post (handle_app_ents s from pi pt cm oes).
   Proof.
-    intros I Hm Hr Hl [[Hrt0 Hrt] Hin] Hns. unfold handle_app_ents.
+    intros I Hm Hr Hl [[Hrt0 Hrt] Hin] Hns Hdc. unfold handle_app_ents.
+    assert (Hfmc : forall x mi, inv x -> resp_ok RT (p_log (n_p x)) mi ->
+                     post (follower_maybe_commit (send x from (AppEntsResp true mi 0)) cm mi)).
+    { intros x mi Ix Hok. eapply post_follower_maybe_commit with (h := 0); [apply inv_resp; auto | exact Hdc | | ].
+      - simpl. apply in_or_app. right. left. reflexivity.
+      - reflexivity. }
     set (sc := set_follower_contact s).
     assert (Ic : inv sc) by (unfold sc; vol).
     pose proof (pure_has_entry (n_p sc) pi pt) as Pu.
@@ -752,7 +965,7 @@ Section LV.
     destruct (has_entry_wf _ _ _ (v_snap sc Ic) (v_wf sc Ic) Eh) as [Hpi Hta].
     unfold llen in Hpi. change (p_log (n_p sc)) with (p_log (n_p s)) in Hpi.
     destruct oes as [ents |].
-    2: { apply post_follower_maybe_commit. apply inv_resp; auto. intros _.
+    2: { apply Hfmc; auto.
          destruct Hta as [Z | [e [X1 X2]]]; [left; exact Z | right]. exists e. split; auto. rewrite X2. exact Hrt0. }
     destruct Hin as [Einp [Hwe Ht1]].
     pose proof (pure_conflict_index sc ents) as Pc.
@@ -764,6 +977,7 @@ Section LV.
     change (p_log (n_p sc)) with (p_log (n_p s)) in *. rewrite Hl in *.
     set (L0 := p_log (n_p s0)) in *. set (pin := N.to_nat pi) in *.
     eapply postQ_bind with (Q := fun y => n_msgs y = [] /\ n_role y = Follower /\ p_term (n_p y) = p_term (n_p s) /\
+                                          n_commit y = n_commit s /\
                                           exists c, p_log (n_p y) = firstn c L0 /\ qtrunc s pi pt ents c).
     - destruct any.
       + destruct Hspec as [j [Hj1 [Hj2 [Hci [Hag Hmis]]]]].
@@ -778,10 +992,11 @@ Section LV.
         destruct (do_mut_cases (MTruncate (ci - 1)) sc) as [E | E]; rewrite E; cbv beta iota delta [bind].
         * eapply pinv_trunc with (s := s) (c := (pin + j)%nat); eauto. apply (v_snap s I).
         * match goal with |- postQ _ (match n_conf ?x with _ => _ end) => set (x1 := x) end.
-          assert (Hy : forall y, n_p y = n_p x1 -> n_role y = Follower -> n_msgs y = [] ->
+          assert (Hy : forall y, n_p y = n_p x1 -> n_role y = Follower -> n_msgs y = [] -> n_commit y = n_commit s ->
                          inv y /\ (n_msgs y = [] /\ n_role y = Follower /\ p_term (n_p y) = p_term (n_p s) /\
+                                    n_commit y = n_commit s /\
                                     exists c, p_log (n_p y) = firstn c L0 /\ qtrunc s pi pt ents c)).
-          { intros y Py Ry My. split.
+          { intros y Py Ry My Cy. split.
             - eapply inv_trunc with (s := s) (c := (pin + j)%nat); try eassumption;
                 try (rewrite Py; first [exact Htr | apply (v_snap s I) | reflexivity]); try (fold L0; lia).
             - repeat split; auto; [rewrite Py; reflexivity|]. exists (pin + j)%nat. split; [rewrite Py; exact Htr | exact Hq]. }
@@ -797,7 +1012,7 @@ Section LV.
           assert (Hlen0 : (0 < length ents)%nat) by (destruct ents; [congruence | simpl; lia]).
           assert (Hov : Nat.min (length L0 - pin) (length ents) = length ents) by lia. rewrite Hov in Hspec.
           destruct Hspec as [Z | [Z Ag]]; [lia | exact Ag].
-    - intros y Iy [My [Ry [Ty [c [Ly Qc]]]]].
+    - intros y Iy [My [Ry [Ty [Cy [c [Ly Qc]]]]]].
       assert (Hc : (pin <= c <= length L0)%nat) by (destruct Qc as [B _]; exact B).
       rewrite (last_index_wf (n_p y) (v_snap y Iy) (v_wf y Iy)). unfold llen. rewrite Ly.
       rewrite firstn_length, Nat.min_l by lia.
@@ -807,7 +1022,7 @@ Section LV.
       { intros e2 X2.
         replace (pi + 1 + N.of_nat (length ents) - 1) with (pi + N.of_nat (length ents - 1) + 1) by lia. apply (Hrt _ _ X2). }
       destruct (pi + 1 + N.of_nat (length ents) - 1 <=? N.of_nat c) eqn:E.
-      { apply post_follower_maybe_commit. apply inv_resp; auto. intros _. right.
+      { apply Hfmc; auto. right.
         apply N.leb_le in E. destruct Qc as [_ [_ [Q3 _]]].
         destruct (Q3 ltac:(unfold pin; lia)) as [e1 [e2 [X1 [X2 [X3 X4]]]]].
         exists e1. split.
@@ -837,14 +1052,18 @@ Section LV.
         * change (fst (mem_append (p_log (n_p s2)) (a0 :: ar)) = firstn c L0 ++ skipn (c - pin) ents). rewrite Hma. reflexivity.
         * simpl. rewrite P2. apply (v_snap y Iy).
         * simpl. rewrite P2. exact Ty.
-      + apply post_follower_maybe_commit. apply inv_resp.
+      + assert (Hc2 : n_commit s2 = n_commit y).
+        { unfold s2. clear. generalize (a0 :: ar). intro l. revert y. induction l as [| e l IH]; intros y; simpl; auto.
+          destruct (e_type e =? EntryConf); rewrite IH; reflexivity. }
+        apply Hfmc.
         * eapply inv_merged with (s := s) (c := c); eauto.
+          -- simpl. rewrite Hc2. exact Cy.
           -- change (fst (mem_append (p_log (n_p s2)) (a0 :: ar)) = firstn c L0 ++ skipn (c - pin) ents). rewrite Hma. reflexivity.
           -- simpl. rewrite P2. apply (v_snap y Iy).
           -- simpl. rewrite P2. exact Ty.
           -- simpl. rewrite R2. exact Ry.
           -- simpl. rewrite M2. exact My.
-        * intros _. right.
+        * right.
           destruct (nth_error_ex ents (length ents - 1)) as [e2 X2]; [lia|].
           exists e2. split; [| apply HrtL; exact X2].
           match goal with |- nth_error (p_log (n_p ?x)) _ = _ =>
@@ -867,7 +1086,8 @@ Section LV.
 
   Definition mcond (s : node) (m : msg) : Prop :=
     match m_body m with
-    | AppEnts pi pt _ oes => in_ok s pi pt oes
+    | AppEnts pi pt cm oes => DC cm /\ in_ok s pi pt oes
+    | AppEntsResp true ix _ => RSP (m_from m) ix (p_term (n_p s))
     | VoteReq li lt => forall L, uptodate L li lt -> VQ (m_from m) L
     | InstallSnap _ _ _ => False
     | _ => True
@@ -895,7 +1115,7 @@ Section LV.
     post (handle_follower s m).
   Proof.
     intros I Hm Hr Hl Hc Hns. unfold handle_follower. unfold mcond in Hc. destruct (m_body m).
-    - eapply postQ_bind; [apply postQ_follower_note_leader; auto|].
+    - destruct Hc as [Hdc Hc]. eapply postQ_bind; [apply postQ_follower_note_leader; auto|].
       intros s1 I1 [A1 [A2 [A3 [A4 [A5 [A6 A7]]]]]]. apply post_handle_app_ents; auto; try congruence.
       + unfold in_ok in *. destruct Hc as [Hc0 Hc]. split; auto. destruct ents; auto. rewrite A2. exact Hc.
       + unfold strong in *. rewrite A2. exact Hns.
@@ -924,13 +1144,20 @@ Section LV.
     - simpl. apply no_appents_app. split; auto. constructor; [| constructor]. unfold is_appents. simpl. auto.
   Qed.
 
-  Lemma post_become_candidate s :
-    inv s -> n_msgs s = [] -> p_log (n_p s) = p_log (n_p s0) -> post (become_candidate s).
+  Lemma ext_reset y : n_commit y = n_commit s0 -> n_msgs y = [] -> n_role y <> Leader -> ext y.
   Proof.
-    intros I Hm Hl. unfold become_candidate, enter_candidate.
+    intros Hc Hm Hr. unfold ext. rewrite Hc, Hm. split; [constructor|]. split; [exact Logic.I|]. split; [left; left; reflexivity|].
+    intro X. contradiction.
+  Qed.
+
+  Lemma post_become_candidate s :
+    inv s -> n_msgs s = [] -> p_log (n_p s) = p_log (n_p s0) -> n_role s <> Leader -> n_commit s = n_commit s0 ->
+    post (become_candidate s).
+  Proof.
+    intros I Hm Hl Hnl Hcm. unfold become_candidate, enter_candidate.
     set (sr := set_role s Candidate 0 0).
     destruct (negb (in_latest_conf sr) && latest_conf_committed sr) eqn:Econd.
-    { simpl. eapply inv_follower with (s := s); eauto; try reflexivity. right. rewrite Hm. constructor. }
+    { simpl. eapply inv_follower with (s := s); eauto; try reflexivity. right. split; [rewrite Hm; constructor | exact Hnl]. }
     assert (Hconf : n_conf s <> None).
     { intro X. unfold in_latest_conf, latest_conf_committed in Econd. simpl in Econd. rewrite X in Econd. discriminate. }
     assert (Ht1 : 1 <= p_term (n_p s)).
@@ -949,7 +1176,8 @@ Section LV.
         - lia.
         - intro X. lia.
         - unfold LR. cbv zeta. left. simpl. exact Hl.
-        - left. rewrite Hm. constructor. }
+        - left. rewrite Hm. constructor.
+        - apply ext_reset; simpl; auto. discriminate. }
       set (s2 := if in_latest_conf x1 then set_candidate x1 (c_timeout x1) (set_add (n_id x1) (c_votes x1)) else x1).
       assert (I2 : inv s2 /\ n_msgs s2 = [] /\ n_role s2 = Candidate).
       { unfold s2. destruct (in_latest_conf x1); (split; [first [exact I1 | vol] | split; [exact Hm | reflexivity]]). }
@@ -974,6 +1202,7 @@ Section LV.
   Proof.
     intros I Hm Hr. unfold handle_candidate.
     assert (Na : no_appents (n_msgs s)) by (rewrite Hm; constructor).
+    assert (Hnl : n_role s <> Leader) by congruence.
     destruct (m_body m); simpl; auto.
     - eapply inv_follower with (s := s); eauto.
     - apply inv_send; [exact I | exact Logic.I | left; exact Logic.I].
@@ -989,18 +1218,19 @@ Section LV.
     intros I Hm Hl Hc Hs Hd. unfold handle_by_role. destruct (n_role s) eqn:Er.
     - apply post_handle_follower; auto. intros [X Y]. destruct Hd; congruence.
     - apply post_handle_candidate; auto.
-    - apply post_handle_leader; auto.
+    - apply post_handle_leader; auto. unfold mcond in Hc. destruct (m_body m); auto.
   Qed.
 
   (* ---------------------------------------------------------------- HandleMsg *)
   Definition mok3 (m : msg) : Prop :=
     match m_body m with
-    | AppEnts pi pt _ oes =>
-        rt_ok pi pt oes /\
+    | AppEnts pi pt cm oes =>
+        DC cm /\ rt_ok pi pt oes /\
         match oes with
         | Some ents => inp = Some {| ai_term := m_term m; ai_pi := pi; ai_pt := pt; ai_ents := ents |} /\ wf_from (pi + 1) ents /\ 1 <= m_term m
         | None => True
         end
+    | AppEntsResp true ix _ => RSP (m_from m) ix (m_term m)
     | VoteReq li lt => forall L, uptodate L li lt -> VQ (m_from m) L
     | InstallSnap _ _ _ => False
     | _ => True
@@ -1008,21 +1238,29 @@ Section LV.
 
   Lemma mok3_mcond s m : mok3 m -> p_term (n_p s) = m_term m -> mcond s m.
   Proof.
-    unfold mok3, mcond, in_ok. intros H E. destruct (m_body m); auto. destruct H as [H0 H]. split; auto.
-    destruct ents; auto. rewrite E. exact H.
+    unfold mok3, mcond, in_ok. intros H E. destruct (m_body m); auto.
+    - destruct H as [Hd [H0 H]]. split; auto. split; auto. destruct ents; auto. rewrite E. exact H.
+    - destruct success; auto. rewrite E. exact H.
+  Qed.
+
+  Lemma postQ_do_mut_light_c s m : inv s -> light m -> postQ (fun s1 => samev s s1 /\ n_commit s1 = n_commit s) (do_mut m s).
+  Proof.
+    intros I Hl. pose proof (postQ_do_mut_light s m I Hl) as H. destruct (do_mut_cases m s) as [E | E]; rewrite E in *; simpl in *; auto.
+    destruct H as [A B]. split; auto.
   Qed.
 
   Lemma post_handle_msg s m :
     inv s -> n_msgs s = [] -> p_log (n_p s) = p_log (n_p s0) -> n_role s = n_role s0 -> p_term (n_p s) = p_term (n_p s0) ->
+    n_commit s = n_commit s0 ->
     mok3 m -> post (handle_msg s m).
   Proof.
-    intros I Hm Hl Hr Ht Hk. unfold handle_msg.
+    intros I Hm Hl Hr Ht Hcm Hk. unfold handle_msg.
     match goal with |- post (if ?c then _ else _) => destruct c end; [simpl; auto|].
     match goal with |- post (if ?c then _ else _) => destruct c end; [simpl; auto|].
-    eapply postQ_bind with (Q := samev s).
+    eapply postQ_bind with (Q := fun s1 => samev s s1 /\ n_commit s1 = n_commit s).
     - match goal with |- postQ _ (if ?c then _ else _) => destruct c end;
-        [apply postQ_do_mut_light; auto; exact Logic.I | apply postQ_ret; auto using samev_refl].
-    - intros s1 I1 [A1 [A2 [A3 [A4 [A5 [A6 A7]]]]]].
+        [apply postQ_do_mut_light_c; auto; exact Logic.I | apply postQ_ret; auto using samev_refl].
+    - intros s1 I1 [[A1 [A2 [A3 [A4 [A5 [A6 A7]]]]]] Ac].
       match goal with |- post (if ?c then _ else _) => destruct c end; [simpl; auto|].
       destruct (m_term m <? p_term (n_p s1)) eqn:Elt; [simpl; auto|]. apply N.ltb_ge in Elt.
       destruct (p_term (n_p s1) <? m_term m) eqn:Egt.
@@ -1042,6 +1280,7 @@ Section LV.
               * lia.
               * unfold LR. cbv zeta. left. simpl. congruence.
               * left. rewrite A4, Hm. constructor.
+              * apply ext_reset; simpl; [congruence | congruence | discriminate].
             + simpl. congruence.
             + simpl. congruence.
             + apply mok3_mcond; auto.
@@ -1058,22 +1297,23 @@ Section LV.
   (* ---------------------------------------------------------------- Tick, Propose, Bootstrap *)
   Lemma post_tick s :
     inv s -> n_msgs s = [] -> p_log (n_p s) = p_log (n_p s0) -> n_role s = n_role s0 -> p_term (n_p s) = p_term (n_p s0) ->
+    n_commit s = n_commit s0 ->
     post (tick s).
   Proof.
-    intros I Hm Hl Hr Ht. unfold tick.
+    intros I Hm Hl Hr Ht Hcm. unfold tick.
     set (s1 := set_elapsed s ((n_elapsed s + 1) mod 4294967296)).
     assert (I1 : inv s1) by (unfold s1; vol).
     destruct (n_role s1) eqn:Er.
-    - match goal with |- post (if ?c then _ else _) => destruct c end; [apply post_become_candidate; auto | simpl; auto].
-    - match goal with |- post (if ?c then _ else _) => destruct c end; [apply post_become_candidate; auto | simpl; auto].
+    - match goal with |- post (if ?c then _ else _) => destruct c end; [apply post_become_candidate; auto; congruence | simpl; auto].
+    - match goal with |- post (if ?c then _ else _) => destruct c end; [apply post_become_candidate; auto; congruence | simpl; auto].
     - apply post_tick_leader; auto. split; [simpl in Er; congruence | exact Ht].
   Qed.
 
   Lemma post_log_append_leader s es :
-    inv s -> strong s -> n_role s = Leader -> p_log (n_p s) = p_log (n_p s0) -> n_msgs s = [] ->
-    postQ strong (log_append s (stamp es (last_index (n_p s) + 1) (p_term (n_p s)))).
+    inv s -> strong s -> n_role s = Leader -> p_log (n_p s) = p_log (n_p s0) -> n_msgs s = [] -> n_commit s = n_commit s0 ->
+    postQ (fun x => strong x /\ n_role x = Leader) (log_append s (stamp es (last_index (n_p s) + 1) (p_term (n_p s)))).
   Proof.
-    intros I St Hrl Hl Hmsg. unfold log_append.
+    intros I St Hrl Hl Hmsg Hcm. unfold log_append.
     rewrite (last_index_wf _ (v_snap s I) (v_wf s I)). unfold llen.
     destruct (stamp_wf es (N.of_nat (length (p_log (n_p s))) + 1) (p_term (n_p s))) as [Ws Ts].
     set (new := stamp es (N.of_nat (length (p_log (n_p s))) + 1) (p_term (n_p s))) in *.
@@ -1087,37 +1327,43 @@ Section LV.
     { assert (2 <= p_term (n_p s)) by (apply (v_n2 s I); congruence). lia. }
     destruct (do_mut_cases (MAppend new) s) as [E | E]; rewrite E; cbv beta iota delta [bind].
     - destruct I. constructor; simpl; try rewrite Hma; simpl; auto.
-    - split; [| unfold strong in *; simpl; exact St].
+    - split; [| split; [unfold strong in *; simpl; exact St | simpl; exact Hrl]].
       destruct I. constructor; simpl; try rewrite Hma; simpl; auto.
-      rewrite Hmsg. constructor.
+      + rewrite Hmsg. constructor.
+      + destruct v_ext0 as [E1 [E2 [E3 E4]]]. unfold ext. simpl. split; [rewrite Hmsg; constructor|]. split; [exact E2|].
+        split; [left; left; exact Hcm | exact E4].
   Qed.
 
   Lemma post_leader_propose s es :
-    inv s -> strong s -> n_role s = Leader -> p_log (n_p s) = p_log (n_p s0) -> n_msgs s = [] -> post (leader_propose s es).
+    inv s -> strong s -> n_role s = Leader -> p_log (n_p s) = p_log (n_p s0) -> n_msgs s = [] -> n_commit s = n_commit s0 ->
+    post (leader_propose s es).
   Proof.
-    intros I St Hrl Hl Hmsg. unfold leader_propose.
-    eapply postQ_bind; [apply post_log_append_leader; auto|]. intros s1 I1 St1.
-    eapply postQ_bind with (Q := strong).
-    - apply post_for_peers; auto. intros s3 p I3 St3.
+    intros I St Hrl Hl Hmsg Hcm. unfold leader_propose.
+    eapply postQ_bind; [apply post_log_append_leader; auto|]. intros s1 I1 [St1 Rl1].
+    eapply postQ_bind with (Q := fun x => strong x /\ n_role x = Leader).
+    - apply post_for_peers; auto. intros s3 p I3 [St3 Rl3] Hp.
       match goal with |- postQ _ (if ?c then _ else _) => destruct c end; [| apply postQ_ret; auto].
-      eapply postQ_mono; [| apply postQ_send_app_ents; auto using strong_leaderish]. intros x. apply sameL_strong; auto.
-    - intros s2 I2 St2. destruct (l_peers s2); [| simpl; auto].
+      eapply postQ_mono; [| apply postQ_send_app_ents; [exact I3 | apply strong_leaderish; exact St3 | exists p; auto]].
+      intros x Hx. split; [eapply sameL_strong; eauto | destruct Hx as [_ [_ [Rx _]]]; congruence].
+    - intros s2 I2 [St2 Rl2]. destruct (l_peers s2); [| simpl; auto].
       eapply postQ_post. apply post_leader_maybe_commit_strong; auto.
   Qed.
 
   Lemma post2_propose s es :
     inv s -> p_log (n_p s) = p_log (n_p s0) -> n_role s = n_role s0 -> p_term (n_p s) = p_term (n_p s0) -> n_msgs s = [] ->
+    n_commit s = n_commit s0 ->
     post2 (propose s es).
   Proof.
-    intros I Hl Hr Ht Hmsg. unfold propose. destruct (n_role s) eqn:Er; simpl; auto.
+    intros I Hl Hr Ht Hmsg Hcm. unfold propose. destruct (n_role s) eqn:Er; simpl; auto.
     apply post2_of_post. apply post_leader_propose; auto. split; congruence.
   Qed.
 
   Lemma post2_bootstrap s ms ep :
-    inv s -> n_msgs s = [] -> p_log (n_p s) = p_log (n_p s0) -> n_role s = n_role s0 -> boot = Some (boot_entry ms ep) ->
+    inv s -> n_msgs s = [] -> p_log (n_p s) = p_log (n_p s0) -> n_role s = n_role s0 -> n_commit s = n_commit s0 ->
+    boot = Some (boot_entry ms ep) ->
     post2 (propose_initial_membership s ms ep).
   Proof.
-    intros I Hm Hl Hrr Hb. unfold propose_initial_membership.
+    intros I Hm Hl Hrr Hcm Hb. unfold propose_initial_membership.
     destruct (n_role s) eqn:Er; try (simpl; exact I).
     destruct (is_clean (n_p s)) eqn:Ec; [| simpl; exact I].
     assert (Hlog : p_log (n_p s) = []).
@@ -1155,6 +1401,7 @@ Section LV.
           change (fst (mem_append (p_log (n_p x1)) [e]) = [e]). rewrite Hma. reflexivity.
         * simpl. rewrite Hm. constructor.
         * left. simpl. rewrite Hm. constructor.
+        * apply ext_reset; simpl; [exact Hcm | exact Hm | congruence].
   Qed.
 
   Lemma init_latest_conf_nil p : p_snap p = None -> p_log p = [] -> init_latest_conf p = None.
@@ -1167,6 +1414,7 @@ Section LV.
     - destruct C as [C | C]; [left | right; exact C]. split; auto. apply init_latest_conf_nil; auto.
     - intro X. congruence.
     - left. constructor.
+    - unfold ext. simpl. split; [constructor|]. split; [exact Logic.I|]. split; [left; right; reflexivity | intro X; discriminate].
   Qed.
 
   Lemma post_new_core id cfg p : pinv p -> post (new_core id cfg p).
@@ -1182,11 +1430,14 @@ Section LV.
 
   Lemma inv_start : base s0 -> n_msgs s0 = [] -> inv s0.
   Proof.
-    intros [A [B [C D]]] M. constructor; auto.
+    intros [A [B [C [D Pk]]]] M. constructor; auto.
     - lia.
     - unfold LR. cbv zeta. left. reflexivity.
     - rewrite M. constructor.
     - left. rewrite M. constructor.
+    - unfold ext. rewrite M. split; [constructor|]. split; [exact Logic.I|]. split; [left; left; reflexivity|].
+      intro Hr. destruct (Pk Hr) as [P1 P2]. unfold pk. split; [exact P1|]. split; [exact P2|].
+      intros p Hp. right. left. split; [split; auto|]. exists p. split; [apply peer_get_in; auto | reflexivity].
   Qed.
 
   Lemma post2_run_event ev : base s0 -> n_msgs s0 = [] -> evok3 ev -> post2 (run_event s0 ev).
@@ -1247,12 +1498,26 @@ Definition vq_of (ev : event) (to : nid) (L : list entry) : Prop :=
   | _ => False
   end.
 
-Lemma evok4_evok3 ev : evok4 ev -> evok3 (inp_of ev) (boot_of ev) (rt_of ev) (vq_of ev) ev.
+(* the leaderCommit of the delivered AppEnts; a delivered successful AppEntsResp *)
+Definition dc_of (ev : event) (cm : N) : Prop :=
+  match ev with
+  | EDeliver m => match m_body m with AppEnts _ _ c _ => cm = c | _ => False end
+  | _ => False
+  end.
+
+Definition rsp_of (ev : event) (id ix t : N) : Prop :=
+  match ev with
+  | EDeliver m => match m_body m with AppEntsResp true i _ => id = m_from m /\ ix = i /\ t = m_term m | _ => False end
+  | _ => False
+  end.
+
+Lemma evok4_evok3 ev : evok4 ev -> evok3 (inp_of ev) (boot_of ev) (rt_of ev) (vq_of ev) (dc_of ev) (rsp_of ev) ev.
 Proof.
   destruct ev; simpl; auto. unfold mok3, rt_ok. destruct (m_body m) eqn:Eb; auto.
-  - intro H. unfold rt_of. rewrite Eb. split.
+  - intro H. unfold rt_of, dc_of. rewrite Eb. split; [reflexivity|]. split.
     + split; [left; auto|]. destruct ents as [es |]; auto. intros j e Hj. right. exists es, j, e. auto.
     + destruct ents; auto.
+  - intros _. destruct success; auto. unfold rsp_of. rewrite Eb. auto.
   - intros _ L HL. unfold vq_of. rewrite Eb. auto.
 Qed.
 
@@ -1261,16 +1526,16 @@ Definition lq_of (s : node) (L : list entry) (t : N) : Prop := L = p_log (n_p s)
 
 Theorem run_event_crash_lm s ev k crashed st s' :
   base s -> evok4 ev -> run_event_crash (settle s) ev k = Ret (crashed, st, s') ->
-  inv (with_budget (settle s) k) (inp_of ev) (boot_of ev) (rt_of ev) (vq_of ev) (lq_of s) s'.
+  inv (with_budget (settle s) k) (inp_of ev) (boot_of ev) (rt_of ev) (vq_of ev) (lq_of s) (dc_of ev) (rsp_of ev) s'.
 Proof.
   intros Hb He. unfold run_event_crash.
   set (s0 := with_budget (settle s) k).
   assert (Hb0 : base s0) by (unfold base in *; simpl; exact Hb).
   assert (Hq : forall t, p_term (n_p s0) < t -> lq_of s (p_log (n_p s0)) t) by (intros t Ht; split; [reflexivity | exact Ht]).
-  pose proof (post2_run_event s0 (inp_of ev) (boot_of ev) (rt_of ev) (vq_of ev) (lq_of s) Hq ev Hb0 eq_refl (evok4_evok3 ev He)) as P.
+  pose proof (post2_run_event s0 (inp_of ev) (boot_of ev) (rt_of ev) (vq_of ev) (lq_of s) Hq (dc_of ev) (rsp_of ev) ev Hb0 eq_refl (evok4_evok3 ev He)) as P.
   destruct (run_event s0 ev) as [[st0 x] | c | p]; simpl in *; try discriminate.
   - intro H. inversion H. subst. eapply inv_vol; eauto.
-  - pose proof (post_new_core s0 (inp_of ev) (boot_of ev) (rt_of ev) (vq_of ev) (lq_of s) (n_id s) (n_cfg s) p P) as Q.
+  - pose proof (post_new_core s0 (inp_of ev) (boot_of ev) (rt_of ev) (vq_of ev) (lq_of s) (dc_of ev) (rsp_of ev) (n_id s) (n_cfg s) p P) as Q.
     destruct (new_core (n_id s) (n_cfg s) p); simpl in *; try discriminate.
     intro H. inversion H. subst. exact Q.
 Qed.
